@@ -114,13 +114,18 @@ def gen(args) -> list:
             evs.append(ev)
         elif c < 0.12:
             x = lt
-            if rnd.random() < 0.5:
+            cx = rnd.random()
+            if cx < 0.4:
                 cal = rnd.choice(cals)
                 x = LocalDate._ctor(days_since_epoch=rnd.randint(cal._min_days, cal._max_days), calendar=cal).at(lt)
+            elif cx < 0.55:
+                x = lt.with_offset(Offset.from_seconds(rnd.randint(-64800, 64800)))                       # OffsetTime: the same accessors
+            elif cx < 0.7:
+                x = LocalDate(2021, 3, 4).at(lt).with_offset(Offset.from_seconds(rnd.randint(-64800, 64800)))  # OffsetDateTime
             evs.append({"op": "lt_parts", "t": tt(x.nanosecond_of_day), "hour": x.hour, "minute": x.minute, "second": x.second,
                         "millisecond": x.millisecond, "tick_of_second": x.tick_of_second, "nanosecond_of_second": x.nanosecond_of_second,
                         "clock_hour_of_half_day": x.clock_hour_of_half_day, "tick_of_day": limbs(x.tick_of_day),
-                        "nanosecond_of_day": limbs(x.nanosecond_of_day), "microsecond": x.microsecond})
+                        "nanosecond_of_day": limbs(x.nanosecond_of_day), **({"microsecond": x.microsecond} if hasattr(x, "microsecond") else {})})
         elif c < 0.0:
             evs.append({"op": "lt_parts", "t": tt(lt.nanosecond_of_day), "hour": lt.hour, "minute": lt.minute, "second": lt.second,
                         "millisecond": lt.millisecond, "tick_of_second": lt.tick_of_second, "nanosecond_of_second": lt.nanosecond_of_second,
